@@ -423,6 +423,73 @@ def sc_retry(name, seed, mtu, kinds=("large", "query", "emit", "discover")):
     return Scenario(name, s.lines)
 
 
+def sc_attr_drift(name, seed, wifi):
+    """What the platform reports about an interface changes while the responder keeps running (lease renewed,
+    roamed to another access point, renamed host, renegotiated link): every Hello carries the attributes of the
+    moment it is sent - also for a repeated Discover of the same generation, also across a quick-discovery Reset."""
+    rng = random.Random(seed)
+    s = Script()
+    host = rnd_name(rng)
+    s.cfg(host=host, icon=(100, 1), name=(10, 2), hwid=b"")
+    own = rnd_mac(rng)
+    s.boot(1, own, mtu=rng.choice(MTUS), wifi=wifi, fill=0xA5, **rnd_attrs(rng, wifi))
+    gens = [rng.randrange(1, 65536) for _ in range(3)] + [0]
+    m = M1
+    for i in range(40):
+        x = rng.random()
+        if x < 0.5:
+            a = rnd_attrs(rng, wifi)
+            keys = rng.sample(sorted(a), rng.randrange(1, len(a) + 1))
+            s.set(1, **{k: a[k] for k in keys})
+        elif x < 0.7:
+            host = rnd_name(rng)
+            s.cfg(host=host, icon=(100, 1), name=(10, 2), hwid=b"")
+            s.set(1)
+        y = rng.random()
+        if y < 0.2:
+            s.rx(1, reset(m, tos=1))
+        elif y < 0.27:
+            s.rx(1, reset(m, tos=0))
+        s.rx(1, discover(rng.choice([0, 1, 1]), m, gen=rng.choice(gens), seq=rng.randrange(65536), eth_src=m if rng.random() < 0.8 else BR))
+    return Scenario(name, s.lines)
+
+
+def sc_mtu_drift(name, seed):
+    """the interface MTU changes between requests (a tunnel comes up, jumbo frames are switched off): every reply
+    is sized for the MTU in force when it is sent"""
+    rng = random.Random(seed)
+    mtus = [1500, 9000, 576, 1492, 590, 1500, 577, 9216]
+    rng.shuffle(mtus)
+    s = new_script(mtu=mtus[0], icon=(5000, 3), name=(1200, 4))
+    m = M1
+    s.rx(1, discover(0, m, gen=2, seq=1))
+    seq = 10
+    n = 0
+    for mtu in mtus[1:]:
+        for typ in (0x0E, 0x11):
+            seq += 1
+            s.rx(1, query_large(m, OWN, typ, rng.choice([0, 100, 1000]), seq=seq, tos=rng.choice([0, 1])))
+        for _ in range(rng.choice([3, 80, 130])):
+            a = bytes([0x02, 0x44, seed & 0xFF, 0, n >> 8, n & 0xFF]); n += 1
+            s.rx(1, probe(a, OWN, a, OWN, train=n & 1))
+        seq += 1
+        s.rx(1, emit(m, OWN, [(1, 0, OWN, PEER)] * rng.choice([1, 38, 40, 104]), seq=seq, declared=rng.choice([None, 0xFFFF])))
+        if rng.random() < 0.4:
+            s.rx(1, reset(m, tos=1))
+        s.set(1, mtu=mtu)
+        seq += 1
+        s.rx(1, query(m, OWN, seq=seq))
+        for typ in (0x0E, 0x11, 0x13):
+            seq += 1
+            s.drain(1, query_large(m, OWN, typ, 0, seq=seq), 12, large=True)
+            seq += 12
+        s.drain(1, query(m, OWN, seq=seq + 1), 8)
+        seq += 10
+        s.rx(1, emit(m, OWN, [(0, 1, OWN, X)] * rng.choice([2, 39, 105]), seq=seq, declared=rng.choice([None, 0xFFFF])))
+    s.rx(1, reset(m))
+    return Scenario(name, s.lines)
+
+
 def sc_header_sweep(name, tos_list, ops, context, ver=1, dst_own=True):
     """one frame per (service byte, opcode) with a plausible body, from nobody / the bound mapper / a stranger;
     a Reset of both services in between keeps every frame's context the same"""
@@ -525,6 +592,8 @@ def campaign_c02(seed, tier):
         scs.append(sc_multihome("c02-multihome-%d" % i, rng.randrange(1 << 30), n=80))
     scs += tiny_family("c02", seed, tier)
     scs += flood_family("c02", seed, tier)
+    for i in range(2 if tier == "quick" else 30):
+        scs.append(sc_mtu_drift("c02-mtudrift-%d" % i, rng.randrange(1 << 30)))
     return with_slow(scs, seed, every=6)
 
 
@@ -687,6 +756,8 @@ def campaign_c04(seed, tier):
     # the Hello of one interface built while the receive thread of another interface runs in between
     for i in range(2 if tier == "quick" else 40):
         scs.append(sc_preempt("c04-preempt-%d" % i, rng.randrange(1 << 30), list(range(1, 23))))
+    for i in range(4 if tier == "quick" else 80):
+        scs.append(sc_attr_drift("c04-drift-%d" % i, rng.randrange(1 << 30), i % 2))
     scs.append(sc_preempt("c04-preempt-mixed", rng.randrange(1 << 30), list(range(1, 16)), kinds=("discover", "query", "large", "emit", "probe")))
     return scs
 
@@ -707,6 +778,14 @@ def sc_c06(name, seed, mtu, bridged):
 
     for sq in (1, 0xFF, 0x100, 0x7FFF, 0x8000, 0xFF00, 0xFFFF, 0x0101):       # representation boundaries of the sequence number
         s.rx(1, emit(m, OWN, descs(rng.choice([1, 2, 3])), seq=sq, eth_src=eth))
+    # sequence numbers that are each other's byte swap, complement or neighbour (a number compared in the wrong byte
+    # order, or only in part, takes one for the other)
+    for a, b in ((0x0102, 0x0201), (0x1234, 0x3412), (0x00FF, 0xFF00), (0x8001, 0x0180), (0x7FFF, 0x8000), (0x1234, 0x1235), (0x00AB, 0xAB00)):
+        kind = rng.choice(["emit", "query", "large"])
+        first = {"emit": emit(m, OWN, descs(1), seq=a, eth_src=eth), "query": query(m, OWN, seq=a, eth_src=eth),
+                 "large": query_large(m, OWN, 0x11, 0, seq=a, eth_src=eth)}[kind]
+        s.rx(1, first)
+        s.rx(1, emit(m, OWN, descs(rng.choice([1, 2])), seq=b, eth_src=eth))
     ns = [1, 2, 3, cap - 1, cap] + [rng.randrange(1, cap + 1) for _ in range(3)]
     for n in ns:
         seq += 1
@@ -746,6 +825,8 @@ def campaign_c06(seed, tier):
     for i in range(8 if tier == "quick" else 200):
         scs.append(sc_history("c06-hist-%d" % i, rng.randrange(1 << 30), n=50, wild=0.1, mtu=rng.choice(MTUS)))
     scs += tiny_family("c06", seed, tier)
+    for i in range(2 if tier == "quick" else 30):
+        scs.append(sc_mtu_drift("c06-mtudrift-%d" % i, rng.randrange(1 << 30)))
     return with_slow(scs, seed, every=4)
 
 
@@ -860,6 +941,8 @@ def campaign_c07(seed, tier):
         scs.append(sc_multihome("c07-multihome-%d" % i, rng.randrange(1 << 30), n=150, probes=0.45))
     scs += tiny_family("c07", seed, tier)
     scs += flood_family("c07", seed, tier)
+    for i in range(2 if tier == "quick" else 30):
+        scs.append(sc_mtu_drift("c07-mtudrift-%d" % i, rng.randrange(1 << 30)))
     return with_slow(scs, seed, every=4)
 
 
@@ -885,6 +968,8 @@ def sc_c08(name, seed, mtu, isize, nsize, hwid, tier):
             seq = rng.randrange(1, 0x10000)
         elif x < 0.88:
             seq = (seq - rng.choice([1, 2, 0x100, 0x7FFF, 0x8000, rng.randrange(1, 40000)])) % 0x10000 or 1
+        elif x < 0.94:
+            seq = (((seq & 0xFF) << 8) | (seq >> 8)) or 1        # the byte swap of the previous one
         else:
             seq = rng.choice([1, 0xFF, 0x100, 0x7FFF, 0x8000, 0x8001, 0xFF00, 0xFFFE, 0xFFFF])
         return seq
@@ -942,6 +1027,8 @@ def campaign_c08(seed, tier):
     scs += tiny_family("c08", seed, tier)
     for i, mtu in enumerate([576, 1500] if tier == "quick" else [576, 590, 1492, 1500, 9000] * 4):
         scs.append(sc_retry("c08-retry-%d-%d" % (mtu, i), rng.randrange(1 << 30), mtu, kinds=("large",)))
+    for i in range(2 if tier == "quick" else 30):
+        scs.append(sc_mtu_drift("c08-mtudrift-%d" % i, rng.randrange(1 << 30)))
     return with_slow(scs, seed, every=6)
 
 
@@ -1197,6 +1284,10 @@ def sc_c10(name, seed, mtu, heavy=False):
         if rng.random() < 0.3:
             s.rx([2], discover(1, m, gen=rng.randrange(1, 65536), seq=seq + 400))
             s.rx([2], reset(m, tos=1))
+        if rng.random() < 0.3:
+            sw = rng.choice([0x0102, 0x1234, 0x00FF, 0x8001, 0x0A0B])
+            s.rx([1], query_large(m, a_mac, 0x11, 0, seq=sw, eth_src=via))
+            seq = ((sw & 0xFF) << 8) | (sw >> 8)
         s.rx([1], emit(m, a_mac, descs, seq=seq, eth_src=via))
         s.pipe(1, 2)
         if rng.random() < 0.4:
@@ -1446,6 +1537,8 @@ def campaign_c01(seed, tier):
         scs.append(sc_churn("c01-churn-%d-%d" % (mtu, i), rng.randrange(1 << 30), mtu, all_entries=True))
     scs += tiny_family("c01", seed, tier)
     scs += flood_family("c01", seed, tier)
+    for i in range(2 if tier == "quick" else 30):
+        scs.append(sc_mtu_drift("c01-mtudrift-%d" % i, rng.randrange(1 << 30)))
     return scs
 
 
